@@ -8,6 +8,7 @@ import (
 	"unsafe"
 
 	simrt "verif/sim/rt"
+	"verif/sim/satomic"
 	"verif/sim/ssync"
 	"verif/sim/stime"
 )
@@ -210,6 +211,120 @@ func TestOnSendStep(t *testing.T) {
 			}
 			if r.step > recvAt[i] {
 				t.Fatalf("seed %d: send %d accepted at %d after it was received at %d", seed, r.v, r.step, recvAt[i])
+			}
+		}
+	}
+}
+
+// A notification issued between a waiter's Unlock and its going to sleep must not
+// be lost: sync.Cond.Wait joins the wait queue before it unlocks. (A model that
+// enqueued only at the sleep step reported a correct Cond-based readers-writer
+// gate as deadlocked.)
+func TestCondNoLostWakeup(t *testing.T) {
+	for _, strat := range []simrt.Strategy{simrt.StratRandom, simrt.StratSticky, simrt.StratPCT, simrt.StratPOS} {
+		for seed := uint64(1); seed <= 3000; seed++ {
+			s := simrt.New(simrt.Config{Seed: seed, Strategy: strat, StickyQ: 0.7, PCTDepth: 3, PCTSteps: 30, StopOnPanic: true})
+			var mu ssync.Mutex
+			cond := ssync.NewCond(&mu)
+			ready := 0
+			for i := 0; i < 2; i++ {
+				s.Go(func() {
+					mu.Lock()
+					for ready == 0 {
+						cond.Wait()
+					}
+					ready--
+					mu.Unlock()
+				})
+			}
+			s.Go(func() {
+				mu.Lock()
+				ready++
+				cond.Signal()
+				mu.Unlock()
+				mu.Lock()
+				ready++
+				cond.Broadcast()
+				mu.Unlock()
+			})
+			out := s.Run()
+			if out.Stuck || len(out.Panics) > 0 || out.Truncated {
+				t.Fatalf("strategy %v seed %d: stuck=%v %v panics=%v", strat, seed, out.Stuck, out.StuckTasks, out.Panics)
+			}
+		}
+	}
+}
+
+// Signal wakes exactly one waiter: with two waiters and one Signal one of them
+// stays asleep.
+func TestCondSignalWakesOne(t *testing.T) {
+	for seed := uint64(1); seed <= 500; seed++ {
+		s := simrt.New(simrt.Config{Seed: seed, Strategy: simrt.StratRandom, StopOnPanic: true})
+		var mu ssync.Mutex
+		cond := ssync.NewCond(&mu)
+		woken := 0
+		waiting := 0
+		for i := 0; i < 2; i++ {
+			s.Go(func() {
+				mu.Lock()
+				waiting++
+				cond.Wait()
+				woken++
+				mu.Unlock()
+			})
+		}
+		s.Go(func() {
+			for {
+				mu.Lock()
+				w := waiting
+				mu.Unlock()
+				if w == 2 {
+					break
+				}
+				simrt.Gosched()
+			}
+			mu.Lock()
+			cond.Signal()
+			mu.Unlock()
+		})
+		out := s.Run()
+		if !out.Stuck || woken != 1 {
+			t.Fatalf("seed %d: stuck=%v woken=%d (want a stuck end with exactly one waiter woken)", seed, out.Stuck, woken)
+		}
+	}
+}
+
+// A ticket lock whose waiters poll with Gosched (or just poll) must make progress
+// under every strategy: the priority-based ones yield a spinner's priority.
+func TestSpinWaitIsNotStarved(t *testing.T) {
+	for _, polite := range []bool{true, false} {
+		for _, strat := range []simrt.Strategy{simrt.StratRandom, simrt.StratSticky, simrt.StratPCT, simrt.StratPOS} {
+			for seed := uint64(1); seed <= 400; seed++ {
+				s := simrt.New(simrt.Config{Seed: seed, Strategy: strat, StickyQ: 0.95, PCTDepth: 3, PCTSteps: 60, MaxSteps: 20000, StopOnPanic: true})
+				var next, serving satomic.Uint64
+				inside := 0
+				for i := 0; i < 3; i++ {
+					s.Go(func() {
+						for k := 0; k < 2; k++ {
+							my := next.Add(1) - 1
+							for serving.Load() != my {
+								if polite {
+									simrt.Gosched()
+								}
+							}
+							inside++
+							if inside != 1 {
+								panic("two holders")
+							}
+							inside--
+							serving.Add(1)
+						}
+					})
+				}
+				out := s.Run()
+				if out.Stuck || out.Truncated || len(out.Panics) > 0 {
+					t.Fatalf("polite=%v strategy %v seed %d: stuck=%v truncated=%v panics=%v after %d steps", polite, strat, seed, out.Stuck, out.Truncated, out.Panics, out.Steps)
+				}
 			}
 		}
 	}
